@@ -257,8 +257,9 @@ class Check:
         self.notes: list[str] = []
         self._distinct: set = set()
         self.known_hits: list[str] = []
-        os.makedirs(os.path.join(VERIF, 'replays'), exist_ok=True)
-        os.makedirs(os.path.join(VERIF, 'evidence'), exist_ok=True)
+        self.outdir = os.environ.get('VERIF_OUT_DIR', VERIF)  # seeded-defect self-tests write elsewhere
+        os.makedirs(os.path.join(self.outdir, 'replays'), exist_ok=True)
+        os.makedirs(os.path.join(self.outdir, 'evidence'), exist_ok=True)
 
     # -- bookkeeping
     def obligation(self, name: str, ok: bool, detail: str = '', kind: str = 'theorem'):
@@ -348,7 +349,7 @@ class Check:
 
     def _write_replay(self, what, case, concrete, broken):
         h = hashlib.sha1(json.dumps([what, case], sort_keys=True, default=str).encode()).hexdigest()[:10]
-        path = os.path.join(VERIF, 'replays', f'{self.pid}-{h}.json')
+        path = os.path.join(self.outdir, 'replays', f'{self.pid}-{h}.json')
         doc = {'property': self.pid, 'tier': self.tier, 'seed': self.seed, 'repo_head': repo_head(), 'repo': REPO,
                'kind': 'input' if concrete else 'proof-or-correspondence', 'what': what, 'case': case,
                'broken_obligations': [{'name': o['name'], 'kind': o['kind'], 'detail': o['detail']} for o in broken],
@@ -378,7 +379,7 @@ class Check:
         doc = {'property_id': self.pid, 'tier': self.tier, 'seed': self.seed, 'level': 'proof', 'coverage': cov,
                'assumptions': self.assumptions, 'wall_s': round(time.time() - self.t0, 2), 'violations': nviol,
                'repo_head': repo_head()}
-        with open(os.path.join(VERIF, 'evidence', f'{self.pid}.json'), 'w', encoding='utf8') as f:
+        with open(os.path.join(self.outdir, 'evidence', f'{self.pid}.json'), 'w', encoding='utf8') as f:
             json.dump(doc, f, indent=1, default=str)
 
 
